@@ -375,7 +375,14 @@ impl KotoVm {
             _ => args,
         };
 
-        let frame_base = self.next_register()?;
+        let frame_base = match self.next_register() {
+            Ok(frame_base) => frame_base,
+            Err(error) => {
+                // Discard the result register and the temporary tuple's values
+                self.truncate_registers(result_register);
+                return Err(error);
+            }
+        };
         self.registers.push(instance.unwrap_or_default()); // Frame base
 
         let arg_count = match args {
